@@ -345,6 +345,174 @@ def explore_cell_two_leaf(task):
     return {"paths": npaths, "queries": queries, "part": "cell_two_leaf"}
 
 
+# ------------------------------------------------------------------------------------------------ composite cell veto
+def make_cellveto_composite_run(task):
+    """CompositeObjectCellVetoEventHandler: real initialize + send_event_time (real cells, real Walker, stub estimator)
+    followed by the real send_out_state on a symbolic target composite object (or None): the true rate is the sum of
+    the pair derivatives between the active leaf and the target's leaves at their minimum-image separations, the
+    event is confirmed iff the uniform draw on [0, bounding rate] lies below max(0, that sum); a rejected or empty
+    proposal leaves every velocity unchanged; an accepted one hands the velocity to the leaf the lifting names."""
+    m, active_leaf, with_target = task
+    import jellyfysh.event_handler.abstracts.cell_veto_event_handler as cv_mod
+    import jellyfysh.event_handler.composite_object_cell_veto_event_handler as ccv_mod
+    import jellyfysh.event_handler.walker as walker_mod
+    from jellyfysh.activator.internal_state.cell_occupancy.cells.cuboid_periodic_cells import CuboidPeriodicCells
+    GRID = [4, 4]
+
+    class Est(object):
+        def __init__(self, potential):
+            self.potential = potential
+
+        def derivative_bound(self, lower_corner, upper_corner, direction, calculate_lower_bound=False):
+            key = int(round(sum((i + 1) * 8 * (c + BOX) for i, c in enumerate(lower_corner)))) % 97
+            return 1.0 + key / 16.0 + direction, -(0.5 + key / 32.0 + 2 * direction)
+
+        def charge_correction_factor(self, charge):
+            return charge
+
+    def run(ex):
+        jf.init_hypercubic(DIM, BOX, roots=2, per_root=m)
+        rnd = stubs.SymRandom(ex)
+        inserts = []
+
+        class RecLifting(InsideFirstLifting):
+            def insert(self, rate, identifier, is_active):
+                inserts.append((rate, identifier, is_active))
+                return InsideFirstLifting.insert(self, rate, identifier, is_active)
+        undos = [symx.patch_module(ehb_mod, random=rnd, bounding_potential_warning=lambda *a: None),
+                 symx.patch_module(ccv_mod, random=rnd, bounding_potential_warning=lambda *a: None),
+                 symx.patch_module(cv_mod, random=rnd, print=lambda *a: None),
+                 symx.patch_module(walker_mod, random=rnd), symx.patch_module(lifting_mod, random=rnd),
+                 symx.patch_module(time_mod, isinf=symx.MathShim.isinf)]
+        try:
+            log = []
+            cells = CuboidPeriodicCells(cells_per_side=GRID, neighbor_layers=1)
+            pot = LogPotential(ex, "q", log)
+            h = ccv_mod.CompositeObjectCellVetoEventHandler(estimator=Est(pot), lifting=RecLifting(), charge="e")
+            h.initialize(cells, 1)
+            speed = ex.real("speed")
+            ex.axiom(speed.t > 0)
+            w = symx.SymReal(symx.realval(1) / m)
+            roots, leaves = [], {}
+            for r in range(2):
+                rpos = [ex.real("root%d_x%d" % (r, d)) for d in range(DIM)]
+                for p_ in rpos:
+                    # the active object's cell is fixed to the first one (the proposal step is decided under C18; the
+                    # confirmation step below does not look at cells)
+                    ex.axiom(z3.And(p_.t >= 0, p_.t < (BOX / GRID[0] if r == 0 else BOX)))
+                if r == 0:
+                    stamp, _ = jf.sym_time(ex, "t0", hi=4)
+                    root = Node(Unit((r,), list(rpos), None, [speed * w, 0.0], Time(stamp.quotient, stamp.remainder)),
+                                weight=1)
+                else:
+                    root = Node(Unit((r,), list(rpos), None), weight=1)
+                for k in range(m):
+                    u, _, _ = sym_leaf(ex, (r, k), False, "leaf%d%d" % (r, k))
+                    if r == 0 and k == active_leaf:
+                        u.velocity = [speed, 0.0]
+                        u.time_stamp = Time(stamp.quotient, stamp.remainder)
+                        ex.axiom(u.charge["e"].t != 0)
+                    leaves[(r, k)] = u
+                    root.add_child(Node(u, weight=w))
+                roots.append(root)
+            active_id = (0, active_leaf)
+            t_event, _cells = h.send_event_time([roots[0]])
+            bound = L(h._bounding_event_rate)
+            target = roots[1] if with_target else None
+            sliced = snapshot(all_units([roots[0]] + ([target] if target is not None else [])))
+            n_draws = len(rnd.draws)
+            del log[:]
+            out = h.send_out_state(target)
+            after = snapshot(all_units(out))
+            qcalls = [c for c in log if c[0] == "q"]
+            draws = [d for d in rnd.draws[n_draws:] if d[0] == "uniform"]
+            if target is None:
+                ex.oblige("no-target:no-rate-no-draw-and-the-time-sliced-in-state-is-returned",
+                          z3.And(z3.BoolVal(not qcalls and not draws and not inserts), same_as(after, sliced)))
+                return "no-target"
+            ex.oblige("one-true-rate-per-target-leaf-and-one-draw", z3.BoolVal(len(qcalls) >= m and len(draws) >= 1))
+            conds = []
+            for k in range(m):
+                conds.append(z3.And(*[jf.zmod_eq(qcalls[k][3][d], sliced[(1, k)][0][d] - sliced[active_id][0][d],
+                                                 symx.realval(BOX)) for d in range(DIM)]))
+                conds.append(z3.And(*[z3.And(qcalls[k][3][d] >= -symx.realval(BOX) / 2,
+                                             qcalls[k][3][d] <= symx.realval(BOX) / 2) for d in range(DIM)]))
+                conds.append(z3.And(qcalls[k][4] == L(leaves[active_id].charge["e"]),
+                                    qcalls[k][5] == L(leaves[(1, k)].charge["e"])))
+            ex.oblige("true-rates-use-the-minimum-image-separations-and-charges-of-the-pairs", z3.And(*conds))
+            Q = sum((c[6].t for c in qcalls[:m]), z3.RealVal(0))
+            u = draws[0][3].t
+            ex.oblige("confirmation-draw-is-uniform-on-[0,bounding-rate-of-the-proposal]",
+                      z3.And(L(draws[0][1]) == 0, L(draws[0][2]) == bound))
+            moved = after[active_id][1] is None
+            ex.oblige("accepted-iff-draw-below-max(0,summed-true-rate)", z3.BoolVal(moved) == z3.And(Q > 0, u < Q))
+            if not moved:
+                ex.oblige("rejected:out-state-is-the-time-sliced-in-state", same_as(after, sliced))
+                ex.oblige("rejected:no-lifting-table-filled", z3.BoolVal(not inserts))
+            else:
+                table = {ident: L(rate) for (rate, ident, _) in inserts}
+                ex.oblige("lifting-table-active-flag-on-the-active-unit-only",
+                          z3.BoolVal([i for (_, i, a) in inserts if a] == [active_id]))
+                # reference table: local i: sum_k d(i, k); target k: -sum_i d(i, k); the pair derivatives of the
+                # non-active local leaves are the further true-rate calls, in order
+                dd_ = {}
+                for k in range(m):
+                    dd_[(active_id, (1, k))] = qcalls[k][6].t
+                extra, idx, pair_conds = qcalls[m:], 0, []
+                for i in range(m):
+                    if (0, i) == active_id:
+                        continue
+                    for k in range(m):
+                        c = extra[idx] if idx < len(extra) else None
+                        idx += 1
+                        if c is None:
+                            pair_conds.append(z3.BoolVal(False))
+                            dd_[((0, i), (1, k))] = z3.RealVal(0)
+                            continue
+                        dd_[((0, i), (1, k))] = c[6].t
+                        pair_conds.append(z3.And(*[jf.zmod_eq(c[3][d2], sliced[(1, k)][0][d2] - sliced[(0, i)][0][d2],
+                                                              symx.realval(BOX)) for d2 in range(DIM)]))
+                ex.oblige("lifting-pair-derivative-uses-the-pair's-separation",
+                          z3.And(*pair_conds) if pair_conds else z3.BoolVal(True))
+                conds = [table.get((0, i), z3.RealVal(0)) == sum((dd_[((0, i), (1, k))] for k in range(m)), z3.RealVal(0))
+                         for i in range(m)]
+                conds += [table.get((1, k), z3.RealVal(0)) == -sum((dd_[((0, i), (1, k))] for i in range(m)), z3.RealVal(0))
+                          for k in range(m)]
+                ex.oblige("lifting-table-holds-the-factor-derivatives-and-sums-to-zero",
+                          z3.And(sum(table.values(), z3.RealVal(0)) == 0, *conds))
+                new_active = [i for i in after if len(i) == 2 and after[i][1] is not None]
+                ex.oblige("accepted:exactly-one-leaf-moves-with-the-old-velocity",
+                          z3.And(z3.BoolVal(len(new_active) == 1 and new_active[0] != active_id),
+                                 *[x == y for x, y in zip(after[new_active[0]][1], sliced[active_id][1])])
+                          if len(new_active) == 1 else z3.BoolVal(False))
+            return moved
+        finally:
+            for u_ in undos:
+                u_()
+            jf.reset_settings()
+
+    return run
+
+
+def explore_cellveto_composite(task):
+    queries, npaths = [], 0
+    tag = "cellveto-composite/m%d/a%d/%s" % (task[0], task[1], "target" if task[2] else "none")
+    info = {"family": "cellveto_composite", "task": list(task), "replay": "thin"}
+    ex = symx.Explorer(witness=True, max_paths=50000)
+    for path in ex.paths(make_cellveto_composite_run(task)):
+        npaths += 1
+        if path.exception is not None:
+            queries.append(solve.Query("%s/p%d/no-exception(%s: %s)" % (tag, npaths, type(path.exception).__name__,
+                                                                        str(path.exception)[:60]),
+                                       solve.to_smt2(path.hyp()), expect="unsat",
+                                       info=dict(info, exception=repr(path.exception), choices=list(path.choices)),
+                                       group="thin/no-exception"))
+            continue
+        queries += harness.path_queries(path, prefix="%s/p%d/" % (tag, npaths),
+                                        group_prefix="thin/cellveto_composite/", extra_info=info)
+    return {"paths": npaths, "queries": queries, "part": "cellveto_composite"}
+
+
 def explore_summed(task):
     """TwoCompositeObjectSummedBoundingPotentialEventHandler on two composite objects of m leaves."""
     m, active_root, active_leaf, props = task
@@ -500,7 +668,8 @@ def replay_thin(model, q):
     task = q.info.get("task")
     fam = q.info.get("family")
     run = (make_two_leaf_run(tuple(task)) if fam == "two_leaf" else make_cell_two_leaf_run(tuple(task))
-           if fam == "cell_two_leaf" else make_summed_run(tuple(task)))
+           if fam == "cell_two_leaf" else make_cellveto_composite_run(tuple(task)) if fam == "cellveto_composite"
+           else make_summed_run(tuple(task)))
     return harness.concrete_replay_result(run, model, q, "%s handler step %s" % (q.info.get("family"), task))
 
 
@@ -527,8 +696,8 @@ def main():
     chk.outside_claim("'1.5837/r dominates the merged-image derivative at every separation': the true rate is a "
                       "truncated Ewald sum of erfc/exp/sin/cos over a 3-D continuum, no solver here has a theory for "
                       "it; a change of that prefactor is NOT detected by this check",
-                      "the composite-object cell-bounding and cell-veto handlers (same confirmation pattern, not "
-                      "executed here; the two-leaf cell-bounding handler is)",
+                      "TwoCompositeObjectCellBoundingPotentialEventHandler (same confirmation pattern as the summed "
+                      "handler, not executed here)", "composite objects of more than 3 leaves",
                       "rounding")
     chk.stub("potential / bounding potential -> logging stubs returning fresh reals", "random.uniform -> symbol in "
              "the documented closed range")
@@ -544,6 +713,13 @@ def main():
                             "symbolic positions / charges / speed / time stamp / bound / true rate / draw"
                             % (CELL_BOX, CELL_N))
     chk.explore_parallel([(0,), (1,)], explore_cell_two_leaf)
+    import jellyfysh.event_handler.composite_object_cell_veto_event_handler as ccv_mod
+    chk.encoded(ccv_mod.CompositeObjectCellVetoEventHandler.send_out_state)
+    chk.bound(cellveto_composite="CompositeObjectCellVetoEventHandler.send_out_state after the real initialize / "
+                                 "send_event_time (4 x 4 periodic cells, real Walker, stub estimator): two objects of "
+                                 "2 leaves, every active leaf, target object with symbolic leaf positions or None; the "
+                                 "active object's cell fixed to the first one (the proposal step is C18's)")
+    chk.explore_parallel([(2, 0, True), (2, 1, True), (2, 0, False)], explore_cellveto_composite)
     ms = (2, 3) if chk.thorough else (2,)
     chk.explore_parallel([(m, r, k, None) for m in ms for r in range(2) for k in range(m)], explore_summed)
     chk.finish()
